@@ -15,6 +15,8 @@ func lemmaObligations(s *Session, prop, tier string) ([]*Obligation, []interface
 		obls = append(obls, s.lemmasC06()...)
 	case "C07":
 		obls = append(obls, s.lemmasC07()...)
+	case "C17":
+		obls = append(obls, s.lemmasC17()...)
 	case "C08":
 		obls = append(obls, s.lemmasC08()...)
 	case "C09":
